@@ -15,7 +15,12 @@ property needs.  Comparisons inside the code are decided at rational sample poin
   O4  mortar integral of the active pair: sum over the points of a Gauss rule exact for quadratics of
       1/2 (lengthA (S(xiA_1) - S(xiA_0)) + lengthB |S(xiB_1) - S(xiB_0)|) w_q f(xiA(q), xiB(q), g(q)) with the linear interpolations of the
       end values and S the C1 ramp (shared with C18); assembly: the (1 - xi)-weighted integral goes to the first, the xi-weighted one
-      to the second node of the segment.
+      to the second node of the segment;
+  O4' the pieces in front of the active integral: every common-normal rule the mortar module offers for the `f_common_normal` argument (functions
+      of the two segments discovered by interface, called the way compute_intersection calls its argument) is a unit vector, equals the outward
+      normal of A for parallel facing segments, points out of A and into B, follows a common rigid motion; compute_intersection with an opaque
+      normal n returns matching points xa(xiA) - xb(xiB) + g n = 0 that bound the overlap on A in ascending order (6 overlap configurations);
+      integrate_with_mortar hands the intersection of (A, B), |A|, |B|, the caller's integrand and smoothing size to the active integral.
 Not decided: distances as numbers, rigid-motion invariance, overlap lengths up to smoothing (numerical).
 """
 from __future__ import annotations
@@ -26,17 +31,21 @@ from fractions import Fraction as F
 from optilint.core import Incomplete
 from optilint.tensoreval import Dual, Arr, EvalError, PyFunc, Record, Closure, _A, rat_is_zero, d_fun, sum_d
 from . import C16_sym as S
-from .C16_sym import SymInterp, Sample, INTERP_ERRORS, atom, sym_array, int_array, key_of, same, same_arr, coeff, show, judge
+from .C16_sym import SymInterp, Sample, INTERP_ERRORS, atom, sym_array, int_array, key_of, same, same_arr, coeff, show, judge, number
 
 LEVEL = "other"
 RULE_TEXT = ("obligations = (normal implementation x component identity) + (closest-point kernel x region of the query point) + (candidate ranking x sign pattern) + "
-             "(contact kernel x edge: value on a generic symbolic mesh) + (mortar integral x overlap region: quadrature form) + (assembly: nodal shape function x target node)")
+             "(contact kernel x edge: value on a generic symbolic mesh) + (mortar integral x overlap region: quadrature form) + (assembly: nodal shape function x target node) + "
+             "(common-normal rule offered by the mortar module x {unit, parallel facing pair, orientation, rigid motion}) + (segment intersection x overlap configuration) + "
+             "(mortar glue: argument of the active integral)")
 EXPLANATION = ("The anchor functions are interpreted from their source on a small generic instance (symbolic coordinates, displacements, quadrature rule; opaque "
                "obstacle and integrand functions) by an abstract interpreter over exact symbolic arrays; comparisons are decided at one rational sample per region. "
                "The symbolic results are compared with the specification: normals, closest-point formulas per region, ranking of candidate edges by absolute "
                "distance, obstacle function evaluated at the deformed quadrature points, penalty energy = stiffness * reference length * sum w min(0, phi)^2, "
                "mortar integral = Gauss quadrature of the integrand at linearly interpolated parameters times the averaged smoothed overlap measure, "
-               "nodal assembly of the shape-function weighted integrals. Distances and integrals as numbers are not decided.")
+               "nodal assembly of the shape-function weighted integrals; every common-normal rule offered for the mortar integrals is a unit vector that equals the "
+               "outward normal of the first segment for parallel facing segments; the segment intersection returns matching points xa - xb + g n = 0 bounding the "
+               "overlap; integrate_with_mortar passes them with the two segment lengths to the active integral. Distances and integrals as numbers are not decided.")
 
 EC = "optimism.contact.EdgeCpp"
 MC = "optimism.contact.MortarContact"
@@ -54,6 +63,9 @@ def run(ctx):
     ctx.guard(o3_levelset, ctx)
     ctx.guard(o4_mortar, ctx)
     ctx.guard(o4_assembly, ctx)
+    ctx.guard(o4_common_normal, ctx)
+    ctx.guard(o4_intersection, ctx)
+    ctx.guard(o4_glue, ctx)
     ctx.guard(o2_closest_by_abs, ctx)
     # the overlap measure relies on the smoothed end parameter being the specified C1 ramp (shared with C18)
     from . import C18
@@ -1287,6 +1299,347 @@ def o4_mortar(ctx):
             _touch(ctx, I)
 
 
+# ====================================================================================================================== O4 common normal, intersection, glue
+
+def _edge_normal(E):
+    """outward normal (t_y, -t_x)/|t| of the symbolic edge E (specification side)"""
+    tx, ty = E.data[2] - E.data[0], E.data[3] - E.data[1]
+    nt = d_fun("sqrt", tx * tx + ty * ty)
+    return [ty / nt, -tx / nt]
+
+
+def _normal_call_convention(ctx, A, B):
+    """how the consumer (compute_intersection) calls the common-normal function it is given: positional / keyword arguments -> 'A' | 'B'
+    (first / second segment of the pair); None when that cannot be read off"""
+    ci = ctx.repo.find(f"{MC}:compute_intersection")
+    if ci is None or len(ci.params()) != 3:
+        return None
+    seen = []
+
+    class _Stop(Exception):
+        pass
+
+    def fn(it, args, kw):
+        seen.append((list(args), dict(kw)))
+        raise _Stop()
+    env = {}
+    for k, (x, y) in enumerate(((0, 0), (2, F(1, 10)))):
+        env[f"A{k}_0"], env[f"A{k}_1"] = F(x), F(y)
+    for k, (x, y) in enumerate(((3, F(-1, 2)), (1, F(-2, 5)))):
+        env[f"B{k}_0"], env[f"B{k}_1"] = F(x), F(y)
+    I = SymInterp(ctx.repo, Sample(env))
+    try:
+        I.call(I.module_value(ctx.need_module(MC), "compute_intersection"), [A, B, PyFunc("f_common_normal", fn)], {})
+    except _Stop:
+        pass
+    except INTERP_ERRORS:
+        return None
+    if not seen:
+        return None
+
+    def role(v):
+        try:
+            v = I.num(v)
+        except INTERP_ERRORS:
+            return None
+        if isinstance(v, Arr) and v.shape == (2, 2):
+            return "A" if same_arr(v, A) else "B" if same_arr(v, B) else None
+        return None
+    args, kw = seen[0]
+    conv = ([role(v) for v in args], {k: role(v) for k, v in kw.items()})
+    if None in conv[0] or None in conv[1].values() or sorted(conv[0] + list(conv[1].values())) != ["A", "B"]:
+        return None
+    return conv
+
+
+def _common_normal_candidates(ctx, conv):
+    """The common-normal rule of a mortar integral is an argument (integrate_with_mortar / compute_intersection / the assemblies take it from the caller):
+    every function the module of the consumer offers for that argument is a sibling implementation of the same interface.  A candidate is a top-level
+    function of that module that can be called the way the consumer calls its normal argument (two segments) and returns a plane vector for two generic
+    segments; a function with that signature that refers to an edge-normal implementation but cannot be interpreted is reported as undecided."""
+    A, B = sym_array("A", (2, 2)), sym_array("B", (2, 2))
+    env = {"A0_0": F(0), "A0_1": F(0), "A1_0": F(2), "A1_1": F(1, 3), "B0_0": F(5, 2), "B0_1": F(-1), "B1_0": F(1, 4), "B1_1": F(-1, 2)}
+    mod = ctx.need_module(MC)
+    normal_sites = {f"{SF}:compute_normal", f"{SF}:compute_edge_vectors", f"{MC}:compute_normal", "optimism.Mesh:compute_edge_vectors"}
+    out, unread = [], []
+    for sc in ctx.repo.functions():
+        if sc.module.name != MC or sc.kind != "function" or sc.parent is None or sc.parent.kind != "module":
+            continue
+        ps = sc.params()
+        if len(conv[0]) > len(ps) or any(k not in ps + sc.kwonly() for k in conv[1]) or sc.n_required() > len(conv[0]) + len(conv[1]):
+            continue
+        if any(sc.default_of(p) is None for p in sc.kwonly() if p not in conv[1]):
+            continue
+        if ctx.repo.find(sc.qualname) is not sc:
+            continue        # shadowed by a later definition of the same name
+        I = SymInterp(ctx.repo, Sample(env))
+        try:
+            v = I.num(_call_normal(I, I.module_value(mod, sc.name), conv, A, B))
+            if isinstance(v, Arr) and v.shape == (2,):
+                # a helper that happens to map two segments to a plane vector is not a normal rule: it must go through an edge-normal implementation
+                # or return a unit vector
+                n2 = number(v.data[0] * v.data[0] + v.data[1] * v.data[1], Sample(env))
+                if (set(I.visited) & normal_sites) or (n2 is not None and abs(float(n2) - 1) < 1e-9):
+                    out.append(sc)
+        except INTERP_ERRORS as ex:
+            refs = set()
+            for n in ast.walk(sc.node):
+                if isinstance(n, (ast.Name, ast.Attribute)):
+                    try:
+                        refs |= {fv.scope.qualname for fv in ctx.repo.resolve(n, sc) if hasattr(fv, "scope") and getattr(fv.scope, "is_function", lambda: False)()}
+                    except Exception:
+                        pass
+            if (refs | set(I.visited)) & normal_sites:
+                unread.append((sc, ex))
+        except (AttributeError, IndexError, KeyError, TypeError, ValueError):
+            pass
+    return out, unread
+
+
+def _call_normal(I, f, conv, A, B):
+    pick = {"A": A, "B": B}
+    return I.call(f, [pick[r] for r in conv[0]], {k: pick[r] for k, r in conv[1].items()})
+
+
+def o4_common_normal(ctx):
+    """Every common-normal rule the mortar module offers, f(A, B) for the pair of segments (A integrated, B opposite): the gap g of a mortar integral
+    solves xa - xb + g n = 0 with n = f(A, B), so (1) n is a unit vector, (2) for parallel facing segments (B runs against A) n is the outward normal of A
+    -- otherwise the gap of a separated pair is not its distance and the gap area is not gap * overlap --, (3) on facing pairs in general position n
+    points out of A and into B, (4) n follows a common rigid motion of the two segments."""
+    rule = "O4/T6-common-normal-siblings"
+    mod = ctx.need_module(MC)
+    A, B = sym_array("A", (2, 2)), sym_array("B", (2, 2))
+    conv = _normal_call_convention(ctx, A, B) or (["A", "B"], {})
+    cands, unread = _common_normal_candidates(ctx, conv)
+    for (sc, ex) in unread:
+        ctx.undecided(rule, sc, None, construct=f"{_short(MC)}.{sc.name}", detail=f"has the interface of a common-normal rule and uses an edge normal; cannot interpret: {ex}")
+    if not cands and not unread:
+        raise Incomplete("the mortar module offers no common-normal rule (a function of two segments that returns a plane vector)")
+    nA, nB = _edge_normal(A), _edge_normal(B)
+    dx, dy = atom("dx"), atom("dy")
+    tA = [A.data[2] - A.data[0], A.data[3] - A.data[1]]
+    # B runs against A: translated copy of A reversed (same length); twice as long; half as long
+    def opposite(scale):
+        b0 = [A.data[2] + dx, A.data[3] + dy]
+        return Arr([b0[0], b0[1], b0[0] - Dual(scale) * tA[0], b0[1] - Dual(scale) * tA[1]], (2, 2))
+    envA = {"A0_0": F(1, 3), "A0_1": F(-1, 2), "A1_0": F(2), "A1_1": F(1, 4)}
+    facing = [dict(envA, B0_0=F(5, 2), B0_1=F(-1), B1_0=F(1, 4), B1_1=F(-3, 2)), dict(envA, B0_0=F(3), B0_1=F(-2), B1_0=F(1), B1_1=F(-5, 2)),
+              {"A0_0": F(0), "A0_1": F(0), "A1_0": F(-1), "A1_1": F(2), "B0_0": F(1, 2), "B0_1": F(3), "B1_0": F(2), "B1_1": F(-1, 3)}]
+    cr, sr = F(3, 5), F(4, 5)
+
+    def moved(E):
+        return Arr([v for k in range(2) for v in (cr * E.data[2 * k] - sr * E.data[2 * k + 1] + dx, sr * E.data[2 * k] + cr * E.data[2 * k + 1] + dy)], (2, 2))
+
+    for sc in cands:
+        name = f"{_short(MC)}.{sc.name}"
+        f = None
+
+        def value(I, a, b):
+            v = I.num(_call_normal(I, I.module_value(mod, sc.name), conv, a, b))
+            if not (isinstance(v, Arr) and v.shape == (2,)):
+                raise EvalError(f"the common normal is not a plane vector: {show(v, 60)}")
+            return v
+        # ---- (2) parallel facing segments
+        T = _Tally()
+        for (lab, scale) in (("of the same length", 1), ("twice as long", 2), ("half as long", F(1, 2))):
+            smp = Sample(dict(envA, dx=F(1, 5), dy=F(-2, 3)))
+            I = SymInterp(ctx.repo, smp)
+            try:
+                got = value(I, A, opposite(scale))
+                v = judge(got, Arr(nA, (2,)), smp)
+                T.add(v, f"{name}(A, B) for parallel facing segments (B runs against A, {lab}) is `{show(got, 200)}`; expected the outward normal of A, (t_y, -t_x)/|t| "
+                         f"with t = second - first point of A: the gap g of xa - xb + g n = 0 is not the distance of the segments (gap area != gap * overlap)" +
+                         ("" if v is False else _NOT_NF))
+            except INTERP_ERRORS as ex:
+                T.cannot(ex)
+            finally:
+                _touch(ctx, I)
+        ctx.decide(rule, T.verdict(), sc, None, construct=f"{name}:parallel-facing=normal-of-A", detail="outward normal of the first segment when the second runs against it (3 length ratios)",
+                   bad_detail=T.text())
+        # ---- (1) unit, (3) orientation, (4) rigid motion: generic pairs
+        TU, TO, TR = _Tally(), _Tally(), _Tally()
+        for env in facing:
+            smp = Sample(dict(env, dx=F(1, 5), dy=F(-2, 3)))
+            I = SymInterp(ctx.repo, smp)
+            try:
+                got = value(I, A, B)
+                v = judge(got.data[0] * got.data[0] + got.data[1] * got.data[1], Dual(1), smp)
+                TU.add(v, f"{name}(A, B) = `{show(got, 200)}` is not a unit vector" + ("" if v is False else _NOT_NF))
+                da = number(got.data[0] * nA[0] + got.data[1] * nA[1], smp)
+                db = number(got.data[0] * nB[0] + got.data[1] * nB[1], smp)
+                if da is None or db is None:
+                    TO.add(None, f"no sample value for {name}(A, B) . normal")
+                else:
+                    okv = float(da) > 1e-9 and float(db) < -1e-9
+                    TO.add(True if okv else False, f"for the facing segments A = {[(str(env['A0_0']), str(env['A0_1'])), (str(env['A1_0']), str(env['A1_1']))]}, "
+                           f"B = {[(str(env['B0_0']), str(env['B0_1'])), (str(env['B1_0']), str(env['B1_1']))]} the common normal {name}(A, B) has n.nA = {float(da):+.4g}, "
+                           f"n.nB = {float(db):+.4g}; it must point out of A (n.nA > 0) and into B (n.nB < 0): the sign of every gap is reversed")
+                got2 = value(I, moved(A), moved(B))
+                want2 = Arr([cr * got.data[0] - sr * got.data[1], sr * got.data[0] + cr * got.data[1]], (2,))
+                v = judge(got2, want2, smp)
+                TR.add(v, f"{name} of the two segments after a common rigid motion (rotation (3/5, 4/5), translation) is `{show(got2, 160)}`, not the rotated normal "
+                          f"`{show(want2, 160)}`: the mortar integrals are not invariant under rigid motions" + ("" if v is False else _NOT_NF))
+            except INTERP_ERRORS as ex:
+                for t in (TU, TO, TR):
+                    t.cannot(ex)
+            finally:
+                _touch(ctx, I)
+        ctx.decide(rule, TU.verdict(), sc, None, construct=f"{name}:unit", detail="|n| = 1 (3 generic facing pairs)", bad_detail=TU.text())
+        ctx.decide(rule, TO.verdict(), sc, None, construct=f"{name}:out-of-A-into-B", detail="n.nA > 0 > n.nB (3 generic facing pairs)", bad_detail=TO.text())
+        ctx.decide(rule, TR.verdict(), sc, None, construct=f"{name}:rigid-motion", detail="f(RA + c, RB + c) = R f(A, B)", bad_detail=TR.text())
+
+
+_INTERSECTION_CONFIGS = (  # A = ((0, 0), (2, 1/10)), outward side y < 0; end points of B
+    ("partial overlap at the second end of A", ((3, F(-1, 2)), (1, F(-2, 5)))), ("B nested in A", ((F(3, 2), F(-1, 2)), (F(1, 2), F(-3, 10)))),
+    ("A nested in B", ((3, F(-1, 2)), (-1, F(-2, 5)))), ("partial overlap at the first end of A", ((1, F(-1, 2)), (-1, F(-3, 10)))),
+    ("penetrating, partial overlap", ((3, F(1, 5)), (1, F(1, 10)))), ("B running with A", ((F(1, 2), F(-1, 2)), (3, F(-2, 5)))))
+
+
+def o4_intersection(ctx):
+    """compute_intersection on symbolic segments A, B with an opaque unit common normal n: the two returned triples (xiA, xiB, g) are matching points,
+    xa(xiA) - xb(xiB) + g n = 0, and they bound the overlap: xiA runs from max(0, lower projection of the ends of B) to min(1, upper projection),
+    projections along n.  Overlap configurations are decided at rational samples; the values stay symbolic."""
+    rule = "O4/T6-mortar-intersection"
+    sc = ctx.need(f"{MC}:compute_intersection")
+    mod = ctx.need_module(MC)
+    if len(sc.params()) != 3:
+        raise Incomplete("compute_intersection no longer has the signature (edgeA, edgeB, f_common_normal)")
+    A, B = sym_array("A", (2, 2)), sym_array("B", (2, 2))
+    nx, ny = atom("nx"), atom("ny")
+    n = [nx, ny]
+    TM, TE, TN = _Tally(), _Tally(), _Tally()
+    cross = lambda u, v: u[0] * v[1] - u[1] * v[0]
+    for (lab, bv) in _INTERSECTION_CONFIGS:
+        env = {"A0_0": F(0), "A0_1": F(0), "A1_0": F(2), "A1_1": F(1, 10), "nx": F(5, 13), "ny": F(-12, 13)}
+        for k in range(2):
+            for d in range(2):
+                env[f"B{k}_{d}"] = F(bv[k][d])
+        smp = Sample(env)
+        I = SymInterp(ctx.repo, smp)
+        rec = []
+
+        def fn(it, args, kw, rec=rec):
+            rec.append((args, kw))
+            return Arr([nx, ny], (2,))
+        try:
+            out = I.call(I.module_value(mod, "compute_intersection"), [A, B, PyFunc("f_common_normal", fn)], {})
+            if isinstance(out, Record):
+                out = tuple(out.values)
+            if not isinstance(out, (tuple, list)) and isinstance(I.num(out), Arr) and I.num(out).shape == (3, 2):
+                o = I.num(out)
+                out = tuple(Arr(o.data[2 * r:2 * r + 2], (2,)) for r in range(3))
+            if not (isinstance(out, (tuple, list)) and len(out) == 3):
+                raise EvalError("compute_intersection does not return (xiA, xiB, g)")
+            xiA, xiB, g = [I.num(x) for x in out]
+            if not all(isinstance(x, Arr) and x.shape == (2,) for x in (xiA, xiB, g)):
+                raise EvalError("compute_intersection does not return three pairs")
+            if not rec:
+                raise EvalError("the common-normal function is never called")
+            TN.add(True if len(rec) == 1 else None, f"[{lab}] the common normal is computed {len(rec)} times")
+            for k in range(2):
+                res = [A.data[d] * (Dual(1) - xiA.data[k]) + A.data[2 + d] * xiA.data[k] - B.data[d] * (Dual(1) - xiB.data[k]) - B.data[2 + d] * xiB.data[k] + g.data[k] * n[d]
+                       for d in range(2)]
+                v = judge(Arr(res, (2,)), Arr([Dual(0), Dual(0)], (2,)), smp)
+                TM.add(v, f"[{lab}] the {('first', 'second')[k]} returned triple (xiA, xiB, g) = (`{show(xiA.data[k].a, 90)}`, `{show(xiB.data[k].a, 90)}`, `{show(g.data[k].a, 90)}`) "
+                          f"does not satisfy xa(xiA) - xb(xiB) + g n = 0 for the common normal n (residual {[float(number(r, smp) or 0) for r in res]} at the sample)" +
+                          ("" if v is False else _NOT_NF))
+            tA = [A.data[2] - A.data[0], A.data[3] - A.data[1]]
+            p = [cross([B.data[2 * k] - A.data[0], B.data[2 * k + 1] - A.data[1]], n) / cross(tA, n) for k in range(2)]
+            pv = [number(x, smp) for x in p]
+            lo, hi = (p[0], p[1]) if pv[0] < pv[1] else (p[1], p[0])
+            lo = Dual(0) if min(pv) < 0 else lo
+            hi = Dual(1) if max(pv) > 1 else hi
+            v = judge(xiA, Arr([lo, hi], (2,)), smp)
+            TE.add(v, f"[{lab}] the overlap on A is returned as xiA = `{show(xiA, 200)}`; expected [max(0, lower), min(1, upper)] of the projections of the ends of B along n "
+                      f"= `{show(Arr([lo, hi], (2,)), 200)}`" + ("" if v is False else _NOT_NF))
+        except INTERP_ERRORS as ex:
+            for t in (TM, TE):
+                t.cannot(f"[{lab}] {ex}")
+        finally:
+            _touch(ctx, I)
+    ctx.decide(rule, TM.verdict(), sc, None, construct="matching-points:xa-xb+g*n=0", detail=f"both returned triples solve xa - xb + g n = 0 ({len(_INTERSECTION_CONFIGS)} overlap configurations)",
+               bad_detail=TM.text())
+    ctx.decide(rule, TE.verdict(), sc, None, construct="overlap-extent-on-A", detail=f"xiA = clipped projections of the ends of B along n, ascending ({len(_INTERSECTION_CONFIGS)} configurations)",
+               bad_detail=TE.text())
+
+
+def o4_glue(ctx):
+    """integrate_with_mortar hands (xiA, xiB, g) of compute_intersection(edgeA, edgeB, the caller's normal rule), the lengths of the two segments (A first),
+    the caller's integrand and smoothing size to integrate_with_active_mortar, and returns that integral for an overlapping pair."""
+    rule = "O4/T5-mortar-glue"
+    sc = ctx.need(f"{MC}:integrate_with_mortar")
+    ci = ctx.need(f"{MC}:compute_intersection")
+    am = ctx.need(f"{MC}:integrate_with_active_mortar")
+    mod = ctx.need_module(MC)
+    ps = sc.params()
+    if len(ps) != 5 or len(ci.params()) != 3 or len(am.params()) != 7:
+        raise Incomplete("integrate_with_mortar / compute_intersection / integrate_with_active_mortar no longer have the reference signatures")
+    A, B = sym_array("A", (2, 2)), sym_array("B", (2, 2))
+    env = {"A0_0": F(0), "A0_1": F(0), "A1_0": F(2), "A1_1": F(1, 10), "B0_0": F(3), "B0_1": F(-1, 2), "B1_0": F(1, 2), "B1_1": F(-2, 5),
+           "xiA0": F(2, 5), "xiA1": F(1), "xiB0": F(1), "xiB1": F(3, 8), "gap0": F(1, 2), "gap1": F(3, 5), "sm": F(1, 100)}
+    smp = Sample(env, [lambda nme: F(1) if nme.startswith(("IAM", "FI[")) else None])
+    I = SymInterp(ctx.repo, smp)
+    rec = {"ci": [], "am": []}
+    XA, XB, G = sym_array("xiA", (2,)), sym_array("xiB", (2,)), sym_array("gap", (2,))
+
+    def bind(scope, args, kw):
+        b = dict(zip(scope.params(), args))
+        b.update(kw)
+        return [b.get(p) for p in scope.params()]
+
+    def f_ci(it, args, kw):
+        rec["ci"].append(bind(ci, args, kw))
+        return (XA, XB, G)
+
+    def f_am(it, args, kw):
+        rec["am"].append(bind(am, args, kw))
+        return atom("IAM")
+    I.special[ci.qualname] = f_ci
+    I.special[am.qualname] = f_am
+    fN = PyFunc("f_common_normal", lambda it, a, k: (_ for _ in ()).throw(EvalError("the common normal is evaluated outside compute_intersection")))
+    fI = PyFunc("func_of_xiA_xiB_g", lambda it, a, k: atom("FI[" + " | ".join(key_of(it.num(x)) for x in a) + "]"))
+    cons = ("intersection-of-(A,B)-with-the-caller's-normal", "active-integral<-intersection", "segment-lengths:A,B", "integrand-and-smoothing-passed-on", "returns-the-active-integral")
+    try:
+        out = I.call(I.module_value(mod, "integrate_with_mortar"), [A, B, fN, fI, atom("sm")], {})
+        if len(rec["ci"]) != 1 or len(rec["am"]) != 1:
+            raise EvalError(f"compute_intersection is called {len(rec['ci'])} times, integrate_with_active_mortar {len(rec['am'])} times")
+        cA, cB, cN = rec["ci"][0]
+        aXA, aXB, aG, aLA, aLB, aF, aS = rec["am"][0]
+        if any(v is None for v in rec["ci"][0] + rec["am"][0]):
+            raise EvalError("an argument of compute_intersection / integrate_with_active_mortar is left to its default")
+        num = I.num
+        length = lambda E: d_fun("sqrt", (E.data[0] - E.data[2]) * (E.data[0] - E.data[2]) + (E.data[1] - E.data[3]) * (E.data[1] - E.data[3]))
+        v1 = (judge(num(cA), A, smp) and judge(num(cB), B, smp)) if cN is fN else False
+        d1 = (f"compute_intersection is called with the segments `{show(num(cA), 80)}`, `{show(num(cB), 80)}`" + ("" if cN is fN else " and another normal rule than the caller's") +
+              "; expected (edgeA, edgeB, the caller's common-normal rule)")
+        parts = [judge(num(aXA), XA, smp), judge(num(aXB), XB, smp), judge(num(aG), G, smp)]
+        v2 = False if False in parts else (None if None in parts else True)
+        d2 = (f"integrate_with_active_mortar receives (xiA, xiB, g) = (`{show(num(aXA), 60)}`, `{show(num(aXB), 60)}`, `{show(num(aG), 60)}`); expected the three results of "
+              f"compute_intersection in their order")
+        parts = [judge(num(aLA), length(A), smp), judge(num(aLB), length(B), smp)]
+        v3 = False if False in parts else (None if None in parts else True)
+        d3 = f"the segment lengths handed to the active integral are `{show(num(aLA), 120)}`, `{show(num(aLB), 120)}`; expected |A|, |B| in this order"
+        if aF is fI:
+            v4 = True
+        else:
+            t = [atom("t0"), atom("t1"), atom("t2")]
+            v4 = judge(num(I.call(aF, t, {})), num(I.call(fI, t, {})), smp)
+        v4s = judge(num(aS), atom("sm"), smp)
+        v4 = False if (v4 is False or v4s is False) else (None if (v4 is None or v4s is None) else True)
+        d4 = f"the active integral receives the smoothing size `{show(num(aS), 60)}` and the integrand {aF!r}; expected the caller's"
+        o = num(out) if not isinstance(out, (tuple, list)) else out
+        v5 = judge(o, atom("IAM"), smp) if isinstance(o, (Dual, Arr)) else False
+        d5 = f"for an overlapping pair integrate_with_mortar returns `{show(o, 120)}`, not the active mortar integral"
+    except INTERP_ERRORS as ex:
+        for c in cons:
+            ctx.undecided(rule, sc, None, construct=c, detail=f"cannot interpret: {ex}")
+        _touch(ctx, I)
+        return
+    _touch(ctx, I)
+    for c, v, d in zip(cons, (v1, v2, v3, v4, v5), (d1, d2, d3, d4, d5)):
+        ctx.decide(rule, v, sc, None, construct=c, detail="as specified", bad_detail=d + ("" if v is False else _NOT_NF))
+
+
 # ====================================================================================================================== self-test variants
 
 def variants(repo):
@@ -1601,6 +1954,47 @@ def integrate_with_active_mortar(xiA, xiB, g, lengthA, lengthB, func_of_xiA_xiB_
 _B_MORTAR_SCAN = _P_MORTAR_SCAN.replace("g[0] + xiQ*(g[1] - g[0])", "g[1] + xiQ*(g[0] - g[1])")
 
 
+_P_INTERSECTION_CRAMER = """
+def compute_intersection(edgeA, edgeB, f_common_normal):
+    direction = f_common_normal(edgeA, edgeB)
+
+    def project(point, edge, along):
+        # point - edge(xi) + g*along = 0 by Cramer's rule
+        tangent = edge[1] - edge[0]
+        rel = point - edge[0]
+        det = tangent[0]*along[1] - tangent[1]*along[0]
+        return (rel[0]*along[1] - rel[1]*along[0]) / det, (tangent[1]*rel[0] - tangent[0]*rel[1]) / det
+
+    xiBofA, gOfA = jax.vmap(project, (0, None, None))(edgeA, edgeB, direction)
+    xiAofB, gOfB = jax.vmap(project, (0, None, None))(edgeB, edgeA, -direction)
+    xiAs = jnp.concatenate([jnp.array([0.0, 1.0]), xiAofB])
+    xiBs = jnp.concatenate([xiBofA, jnp.array([0.0, 1.0])])
+    gs = jnp.concatenate([gOfA, gOfB])
+    inside = (xiAs >= 0.0) & (xiAs <= 1.0) & (xiBs >= 0.0) & (xiBs <= 1.0)
+    pick = jnp.array([jnp.argmin(jnp.where(inside, xiAs, jnp.inf)), jnp.argmax(jnp.where(inside, xiAs, -jnp.inf))])
+    return xiAs[pick], xiBs[pick], gs[pick]
+"""
+
+_B_INTERSECTION_CRAMER_GAP = _P_INTERSECTION_CRAMER.replace("(edgeB, edgeA, -direction)", "(edgeB, edgeA, direction)")
+_B_INTERSECTION_CRAMER_ORDER = _P_INTERSECTION_CRAMER.replace("jnp.array([jnp.argmin(jnp.where(inside, xiAs, jnp.inf)), jnp.argmax(jnp.where(inside, xiAs, -jnp.inf))])",
+                                                              "jnp.array([jnp.argmax(jnp.where(inside, xiAs, -jnp.inf)), jnp.argmin(jnp.where(inside, xiAs, jnp.inf))])")
+
+_P_AVERAGE_NORMAL = """
+def compute_average_normal(edgeA : jnp.array, edgeB : jnp.array) -> jnp.array:
+    difference = compute_normal(edgeCoords=edgeA) - compute_normal(edgeCoords=edgeB)
+    return difference / jnp.sqrt(difference @ difference)
+"""
+
+_P_NORMAL_FROM_B = """
+def compute_normal_from_b(edgeA : jnp.array, edgeB : jnp.array) -> jnp.array:
+    return -compute_normal(edgeB)
+
+# field utilities
+"""
+
+_B_NORMAL_FROM_B = _P_NORMAL_FROM_B.replace("return -compute_normal(edgeB)", "return compute_normal(edgeB)")
+
+
 def _replace_def(name, new_text):
     """edit: replace the whole top-level function `name` by `new_text` (which may define helpers as well)"""
     def f(src):
@@ -1619,6 +2013,7 @@ def _replace_def(name, new_text):
 def _more_variants(Variant, sub, sub_in_func, E, M, P, L, S_, C):
     T5, T6, T13, T8, TA, TW = ("O2/T5-closest-point", "O2/T6-closest-by-absolute-distance", "O3/T13-deformed-sample-points", "O3/T8-penalty-integrand",
                                "O4/T5-mortar-assembly-pairing", "O4/T5-mortar-weights")
+    TN, TI, TG = "O4/T6-common-normal-siblings", "O4/T6-mortar-intersection", "O4/T5-mortar-glue"
     return [
         # ---- preserving restructurings
         Variant("cpp: clip of an extracted line parameter", E, _replace_def("cpp", _P_CPP_CLIP), None),
@@ -1656,7 +2051,38 @@ def _more_variants(Variant, sub, sub_in_func, E, M, P, L, S_, C):
                     "            gapArea = integrate_with_mortar(coordsSegB, coordsSegA, f_average_normal, lambda xiA, xiB, gap: f_integrand(gap), 1e-9)\n"
                     "            gapAreaRight = integrate_with_mortar(coordsSegB, coordsSegA, f_average_normal, lambda xiA, xiB, gap: f_integrand(gap) * xiA, 1e-9)\n"
                     "            return gapArea - gapAreaRight, gapAreaRight"), None),
+        Variant("common normal from A: keyword call", M, sub_in_func("compute_normal_from_a", "    return compute_normal(edgeA)", "    return compute_normal(edgeCoords=edgeA)"), None),
+        Variant("average normal: difference normalised by sqrt of a dot product", M, _replace_def("compute_average_normal", _P_AVERAGE_NORMAL), None),
+        Variant("a third common-normal rule: minus the normal of B", M, sub("# field utilities\n", _P_NORMAL_FROM_B.lstrip("\n")), None),
+        Variant("unrelated helper that maps two segments to a plane vector", M, sub("# field utilities\n", "def _offset_of_first_points(edgeA, edgeB):\n    return edgeB[0] - edgeA[0]\n\n# field utilities\n"), None),
+        Variant("intersection: Cramer's rule, masked argmin / argmax", M, _replace_def("compute_intersection", _P_INTERSECTION_CRAMER), None),
+        Variant("mortar glue: lengths computed first, keywords", M,
+                sub("    branches = [lambda : integrate_with_active_mortar(xiA, xiB, g, \n"
+                    "                                                      jnp.linalg.norm(edgeA[0] - edgeA[1]), \n"
+                    "                                                      jnp.linalg.norm(edgeB[0] - edgeB[1]),\n"
+                    "                                                      func_of_xiA_xiB_g,\n"
+                    "                                                      relativeSmoothingSize),",
+                    "    lengths = [jnp.sqrt(jnp.sum((e[1] - e[0])**2)) for e in (edgeA, edgeB)]\n"
+                    "    branches = [lambda : integrate_with_active_mortar(xiA, xiB, g, lengthB=lengths[1], lengthA=lengths[0],\n"
+                    "                                                      func_of_xiA_xiB_g=func_of_xiA_xiB_g, relativeSmoothingSize=relativeSmoothingSize),"), None),
         # ---- breaking edits
+        Variant("common normal 'from A' returns the normal of B", M, sub_in_func("compute_normal_from_a", "    return compute_normal(edgeA)", "    return compute_normal(edgeB)"), TN),
+        Variant("average normal as the normalised SUM of the two normals", M, sub_in_func("compute_average_normal", "    normal = nA - nB", "    normal = nA + nB"), TN),
+        Variant("average normal not normalised", M, sub_in_func("compute_average_normal", "    return normal / jnp.linalg.norm(normal)", "    return normal"), TN),
+        Variant("average normal with the roles of A and B exchanged", M, sub_in_func("compute_average_normal", "    normal = nA - nB", "    normal = nB - nA"), TN),
+        Variant("a third common-normal rule returning the normal of B", M, sub("# field utilities\n", _B_NORMAL_FROM_B.lstrip("\n")), TN),
+        Variant("intersection: B ends projected along +n (gap sign of the second pair of points)", M,
+                sub("(0,None,None))(edgeB, edgeA,-normal)", "(0,None,None))(edgeB, edgeA, normal)"), TI),
+        Variant("intersection: overlap returned from its upper to its lower end", M,
+                sub("jnp.array([jnp.nanargmin(xiAgood), jnp.nanargmax(xiAgood)])", "jnp.array([jnp.nanargmax(xiAgood), jnp.nanargmin(xiAgood)])"), TI),
+        Variant("intersection: matching point solved against the first end of A instead of xa", M, sub("        r = jnp.array(edgeB[0]-xa)", "        r = jnp.array(edgeB[0]-edgeA[0])"), TI),
+        Variant("refactored intersection without the reversed direction", M, _replace_def("compute_intersection", _B_INTERSECTION_CRAMER_GAP), TI),
+        Variant("refactored intersection with the ends exchanged", M, _replace_def("compute_intersection", _B_INTERSECTION_CRAMER_ORDER), TI),
+        Variant("mortar glue: segment lengths exchanged", M,
+                sub("jnp.linalg.norm(edgeA[0] - edgeA[1]), \n                                                      jnp.linalg.norm(edgeB[0] - edgeB[1]),",
+                    "jnp.linalg.norm(edgeB[0] - edgeB[1]), \n                                                      jnp.linalg.norm(edgeA[0] - edgeA[1]),"), TG),
+        Variant("mortar glue: intersection of (B, A)", M, sub("    xiA,xiB,g = compute_intersection(edgeA, edgeB, f_common_normal)", "    xiA,xiB,g = compute_intersection(edgeB, edgeA, f_common_normal)"), TG),
+        Variant("mortar glue: caller's smoothing size ignored", M, sub("                                                      relativeSmoothingSize),", "                                                      1e-7),"), TG),
         Variant("scan-based mortar integral with the gap interpolated backwards", M, _replace_def("integrate_with_active_mortar", _B_MORTAR_SCAN), TW),
         Variant("first-node share not reduced by the second-node share", M,
                 sub("            return gapAreaLeft, gapAreaRight", "            return gapAreaLeft + gapAreaRight, gapAreaRight"), TA),
